@@ -6,6 +6,7 @@ package main
 // Strings holding caller tokens or opaque text have no character-level model (unsupported => INCONCLUSIVE).
 
 import (
+	"fmt"
 	"go/token"
 	"unicode/utf8"
 )
@@ -103,6 +104,12 @@ func (e *Exec) strLen(s Str) Int {
 }
 
 func (e *Exec) strByteAt(s Str, idx Int) Int {
+	if len(s.P) == 1 && s.P[0].K == pTok && idx.IsC && idx.sval() == 0 {
+		// first byte of a caller-supplied field: indexing panics exactly when the field is empty (decided by the
+		// solver, replayed natively); the byte itself has no model
+		e.obligation(bNot(symBool(fmt.Sprintf("tok%d_empty", s.P[0].Tok))), "index out of range [0] with length 0 (empty field)", "panic")
+		e.unsupported("first byte of a symbolic field (only its existence is modelled)")
+	}
 	cs := e.chars(s, "string index")
 	e.boundsCheck(idx, len(cs), "string index")
 	if !idx.IsC {
